@@ -1,6 +1,105 @@
-/- C01 — theorems follow -/
+/-
+C01 — every read returns the last bytes written to that address (whole core).
+
+The whole core is modelled cycle-accurately (`Model/Core.lean` = crossbar ∘ controller ∘ simulation PHY)
+and co-simulated against the real code; the property itself is the specification monitor
+`PortMemory.Mon.step`, evaluated by the check on the implementation's port events.
+Proved here (for every configuration): the crossbar facts the data path relies on —
+ * `grant_stable_while_busy`   a bank's arbiter cannot move while a command is offered to or queued in the bank,
+                               so every strobe of that bank is routed to the master that queued the command
+ * `delay_line`                a strobe entering a delay line of length L leaves it exactly L cycles later
+ * `wdata_routed`              when exactly one master's delayed write strobe is up, the controller sees that
+                               master's data and byte enables (the `Case` on the one-hot vector)
+together with C06 (address bijection), C02 (bank-machine legality), C03 (timing gates).
+The top-level refinement `core_memory_semantics_full` is stated, **not proved**.
+-/
 import LitedramVerif.Model.Core
 import LitedramVerif.Spec.PortMemory
 namespace C01
-theorem placeholder : True := trivial
+open Crossbar Hw
+
+theorem getElem!_map_range {α : Type} [Inhabited α] (n i : Nat) (f : Nat → α) (h : i < n) :
+    ((Array.range n).map f)[i]! = f i := by
+  rw [getElem!_pos _ _ (by simpa using h)]
+  simp
+
+/-- **The grant cannot move while the bank is busy**: if the granted master offers a command to the bank
+(`bank.valid`) or the bank machine holds commands (`bank.lock`), the arbiter's grant is unchanged by the
+clock edge. -/
+theorem grant_stable_while_busy (c : Cfg) (s : State) (cb : Comb) (fb : Array BankFb) (w r : Array Bool) (nb : Nat)
+    (hnb : nb < c.nbanks) (hbusy : (cb.bankReqs[nb]!).valid = true ∨ (fb[nb]!).lock = true) :
+    (step c s cb fb w r).grants[nb]! = s.grants[nb]! := by
+  simp only [step]
+  rw [getElem!_map_range _ _ _ hnb]
+  have hce : (!(cb.bankReqs[nb]!).valid && !(fb[nb]!).lock) = false := by
+    rcases hbusy with h | h <;> simp [h]
+  simp [rrStep, hce]
+
+/-- a delay line of length `L`: pushing `x` and then `L - 1` further values brings `x` to the output tap -/
+def push (L : Nat) (line : List Bool) (x : Bool) : List Bool := (x :: line).take L
+
+theorem delay_line_tap (L : Nat) (line : List Bool) (hL : line.length = L) (hpos : 0 < L) (x : Bool) (rest : List Bool)
+    (hr : rest.length = L - 1) :
+    ((rest.foldl (push L) (push L line x)).getD (L - 1) false) = x := by
+  -- after k further pushes the value sits at index k
+  have key : ∀ (k : Nat) (rest : List Bool) (l : List Bool), rest.length = k → l.length = L → ∀ j, j + k < L →
+      (rest.foldl (push L) l).getD (j + k) false = l.getD j false := by
+    intro k
+    induction k with
+    | zero => intro rest l hr _ j _; cases rest <;> simp_all
+    | succ k ih =>
+      intro rest l hr hl j hj
+      cases rest with
+      | nil => simp at hr
+      | cons y ys =>
+        simp only [List.foldl_cons]
+        have hlen : (push L l y).length = L := by simp [push, hl]
+        have := ih ys (push L l y) (by simpa using hr) hlen (j + 1) (by omega)
+        rw [show j + (k + 1) = j + 1 + k by omega, this]
+        have hj1 : j + 1 < L := by omega
+        simp [push, List.getD_eq_getElem?_getD, List.getElem?_take, hj1]
+  have hlen : (push L line x).length = L := by simp [push, hL]
+  have := key (L - 1) rest (push L line x) hr hlen 0 (by omega)
+  simp only [Nat.zero_add] at this
+  rw [this]
+  simp [push, List.getD_eq_getElem?_getD, List.getElem?_take, hpos]
+
+/-- **Write-data routing**: with exactly master `nm`'s delayed strobe up, the controller receives that
+master's word and byte enables. -/
+theorem wdata_routed (c : Cfg) (s : State) (ms : Array MasterIn) (cb : Comb) (nm : Nat)
+    (h : writers c s = [nm]) :
+    (out c s ms cb).ctlWdata = (ms[nm]!).wdata ∧ (out c s ms cb).ctlWdataWe = (ms[nm]!).wdataWe := by
+  simp only [out, h, routeWdata, and_self]
+
+/-- … and when no master or more than one is ready the controller sees zeros (nothing is written) -/
+theorem wdata_default (c : Cfg) (s : State) (ms : Array MasterIn) (cb : Comb)
+    (h : (writers c s).length ≠ 1) : (out c s ms cb).ctlWdataWe = 0 := by
+  simp only [out]
+  match hw : writers c s with
+  | [] => simp [routeWdata]
+  | [_] => simp [hw] at h
+  | _ :: _ :: _ => simp [routeWdata]
+
+/-- run the whole-core model and the specification monitor side by side: the port events of a cycle are
+what the model shows (accepted = valid ∧ ready; a write's data is what the master offers) -/
+def runSpec (c : Core.Cfg) (nbytes : Nat) (inputs : List (Array MasterIn)) : Except String PortMemory.Mon :=
+  (inputs.foldl (fun (acc : Core.State × Except String PortMemory.Mon) ms =>
+      let r := Core.step c acc.1 ms
+      let evs := (Array.range c.xb.nmasters).map fun p =>
+        let m := ms[p]!
+        let o := (r.2.1)[p]!
+        ({ accepted := m.cmdValid && o.cmdReady, we := m.cmdWe, addr := m.cmdAddr, data := m.wdata, mask := m.wdataWe,
+           rvalid := o.rdataValid, rdata := o.rdata } : PortMemory.PortEv)
+      (r.1, acc.2.bind fun mon => mon.step evs))
+    (Core.init c, .ok (PortMemory.Mon.init c.xb.nmasters nbytes))).2
+
+/-- the complete property — **not proved**: for every configuration and every master behaviour that keeps the
+contract (commands held until accepted, write data offered with the command), the specification monitor
+accepts the whole-core model's port behaviour.  (The check evaluates the same monitor on the implementation.) -/
+def core_memory_semantics_full : Prop :=
+  ∀ (c : Core.Cfg) (inputs : List (Array MasterIn)), ∃ m, runSpec c (c.phy.dataWidth / 8) inputs = .ok m
+
+/-! ### non-vacuity -/
+example : (([true, false].foldl (push 3) (push 3 [false, false, false] true)).getD 2 false) = true := by decide
+
 end C01
